@@ -3,6 +3,7 @@
    ParseTCPOptions (Codec!SynIter / TcpIter) as a state machine with cursor
    i and limit = Len(o).
 
+   One TLC start can cover several modes and parsers (both are chosen in Init).
    Mode "lazy":  o starts completely unread; a byte is chosen from Alphabet
                  when the parser reads it.  The terminal states partition
                  Alphabet^n into cylinders (one per distinct read pattern),
@@ -18,21 +19,22 @@ EXTENDS Codec, TLC
 
 CONSTANTS Parsers,    \* subset of {0, 1, 2}: 0 = ParseTCPOptions, 1 = ParseSynOptions(isAck = false),
                       \* 2 = ParseSynOptions(isAck = true); chosen in Init (one TLC start covers all)
-          Mode,       \* "lazy" | "eager" | "enc"
-          MaxLen,     \* lazy/eager: string lengths 0..MaxLen
+          Modes,      \* subset of {"lazy", "eager", "enc"}; chosen in Init
+          LazyParsers,\* lazy: parsers explored lazily (isAck cannot matter below 10 bytes: no timestamp option fits)
+          MinLen,     \* lazy: string lengths MinLen..MaxLen
+          MaxLen,
+          MaxLenE,    \* eager: string lengths 0..MaxLenE
           MaxOps,     \* enc: options per sequence
-          MaxCut,     \* enc: truncate by 0..MaxCut bytes
+          MaxCut,     \* enc: sequences of <= 2 options are truncated by 0..MaxCut bytes,
+          MaxCut2,    \*      longer ones by 0..MaxCut2 bytes
+          Alphabet,   \* lazy/eager: the byte values a string is made of
           Big,        \* enc: larger instance list
           Slack       \* 0 = transcription; 1 = seeded off-by-one (self-test)
 
-VARIABLES pz, o, i, r, d, mx, sq
-vars == <<pz, o, i, r, d, mx, sq>>
+VARIABLES md, pz, o, i, r, d, mx, sq
+vars == <<md, pz, o, i, r, d, mx, sq>>
 
-(* EOL NOP MSS WS SACKperm SACK TS kinds; 10 18 255 lengths (with 0..4); 171
-   an unknown kind / data byte.  Every symbol may appear in every role. *)
-Alphabet == {0, 1, 2, 3, 4, 5, 8, 10, 18, 171, 255}
-
-ASSUME Mode = "lazy" => MaxLen <= 9      \* a 10-byte option body would be chosen at once
+ASSUME "lazy" \in Modes => MaxLen <= 9      \* a 10-byte option body would be chosen at once
 
 Inst == IF Big THEN InstBig ELSE InstSmall
 PadModes == <<"none", "nop", "eol">>
@@ -44,13 +46,15 @@ Ops == OpsOf(sq[1])
 Cut == sq[3]
 
 Init ==
+  /\ md \in Modes
   /\ pz \in Parsers
   /\ i = 0 /\ mx = -1
   /\ r = IF pz = 0 THEN TcpDefault ELSE SynDefault
-  /\ CASE Mode = "lazy"  -> sq = <<>> /\ \E n \in 0..MaxLen : o = [k \in 1..n |-> -1]
-       [] Mode = "eager" -> sq = <<>> /\ \E n \in 0..MaxLen : o \in [1..n -> Alphabet]
-       [] Mode = "enc"   -> \E ids \in IdSeqs, pm \in 1..3, cut \in 0..MaxCut :
+  /\ CASE md = "lazy"  -> sq = <<>> /\ pz \in LazyParsers /\ \E n \in MinLen..MaxLen : o = [k \in 1..n |-> -1]
+       [] md = "eager" -> sq = <<>> /\ \E n \in 0..MaxLenE : o \in [1..n -> Alphabet]
+       [] md = "enc"   -> \E ids \in IdSeqs, pm \in 1..3, cut \in 0..MaxCut :
                               LET b == EncSeq(OpsOf(ids), PadModes[pm]) IN
+                              /\ cut <= (IF Len(ids) <= 2 THEN MaxCut ELSE MaxCut2)
                               /\ cut < (IF Len(b) = 0 THEN 1 ELSE Len(b))
                               /\ o = SubSeq(b, 1, Len(b) - cut)
                               /\ sq = <<ids, pm, cut>>
@@ -61,7 +65,7 @@ Iter == IF pz = 0 THEN TcpIter(o, i, r, Alphabet, Slack)
 
 Next == /\ d = 0
         /\ \E out \in Iter : o' = out[1] /\ i' = out[2] /\ r' = out[3] /\ d' = out[4] /\ mx' = out[5]
-        /\ UNCHANGED <<pz, sq>>
+        /\ UNCHANGED <<md, pz, sq>>
 
 Spec == Init /\ [][Next]_vars
 FairSpec == Spec /\ WF_vars(Next)
@@ -74,6 +78,6 @@ Terminates == <>(d # 0)                                       \* (liveness: smal
 
 (* "the parser recovers every option an encoder sequence produced" *)
 Expect == IF pz = 0 THEN ExpectTcp(Ops) ELSE ExpectSyn(Ops, pz = 2)
-Recovered == (Mode = "enc" /\ d # 0 /\ Cut = 0) => (r = Expect /\ d \in {1, 2})
+Recovered == (md = "enc" /\ d # 0 /\ Cut = 0) => (r = Expect /\ d \in {1, 2})
 
 =============================================================================
